@@ -27,6 +27,10 @@ pub enum Probe {
     HexFmt(u64),
     HexParse(String),
     Res0,
+    /// n short-lived threads, one after the other, each making a few ordinary geometry calls
+    ManyThreads(u32),
+    /// ordinary calls made from the destructor of a thread-local value while the thread shuts down
+    ShutdownHook,
 }
 
 impl Probe {
@@ -46,6 +50,8 @@ impl Probe {
             Probe::HexFmt(v) => json!({"kind": "probe", "f": "u64_to_hex", "id": subj::hex(*v)}),
             Probe::HexParse(s) => json!({"kind": "probe", "f": "hex_to_u64", "s": s}),
             Probe::Res0 => json!({"kind": "probe", "f": "get_res0_cells"}),
+            Probe::ManyThreads(n) => json!({"kind": "probe", "f": "many_threads", "n": n}),
+            Probe::ShutdownHook => json!({"kind": "probe", "f": "shutdown_hook"}),
         }
     }
     pub fn from_json(v: &Value) -> Option<Probe> {
@@ -66,6 +72,8 @@ impl Probe {
             "u64_to_hex" => Probe::HexFmt(id()?),
             "hex_to_u64" => Probe::HexParse(v["s"].as_str()?.to_string()),
             "get_res0_cells" => Probe::Res0,
+            "many_threads" => Probe::ManyThreads(v["n"].as_u64()? as u32),
+            "shutdown_hook" => Probe::ShutdownHook,
             _ => return None,
         })
     }
@@ -135,6 +143,8 @@ pub fn probes(tier: &str) -> Vec<Probe> {
     let ress = res_classes();
     let mut p = Vec::new();
     p.push(Probe::Res0);
+    p.push(Probe::ShutdownHook);
+    p.push(Probe::ManyThreads(if tier == "quick" { 700 } else { 70_000 }));
     for &c in &ids {
         p.push(Probe::Resolution(c));
         p.push(Probe::Centre(c));
@@ -502,6 +512,72 @@ pub fn run_probe(p: &Probe) -> Vec<(String, String)> {
         }
         Probe::HexParse(s) => {
             let _ = guard_call!(a5::hex_to_u64(s));
+        }
+        Probe::ManyThreads(n) => {
+            let mut failed = 0u32;
+            let mut first = String::new();
+            for i in 0..*n {
+                let r = std::thread::spawn(move || {
+                    subj::guard(|| {
+                        let lon = -170.0 + (i % 340) as f64;
+                        let lat = -80.0 + (i % 160) as f64;
+                        let c = a5::lonlat_to_cell(LonLat::new(lon, lat), (i % 30) as i32)?;
+                        let _ = a5::cell_to_lonlat(c)?;
+                        let _ = a5::cell_to_boundary(c, None)?;
+                        Ok(c)
+                    })
+                })
+                .join();
+                match r {
+                    Ok(Ok(_)) => {}
+                    Ok(Err(e)) => {
+                        failed += 1;
+                        if first.is_empty() {
+                            first = format!("thread #{}: {}", i, e);
+                        }
+                    }
+                    Err(_) => {
+                        failed += 1;
+                        if first.is_empty() {
+                            first = format!("thread #{} died", i);
+                        }
+                    }
+                }
+            }
+            if failed > 0 {
+                bad("C14/panic", format!("{} of {} short-lived threads (run one after the other) failed on ordinary lookup / centre / boundary calls; first: {}", failed, n, first));
+            }
+        }
+        Probe::ShutdownHook => {
+            // a value in a thread-local whose destructor uses the library (a flush-on-exit hook); it is
+            // initialised BEFORE the library is first used on the thread, so it is destroyed after the
+            // library's own per-thread state
+            use std::sync::atomic::{AtomicI32, Ordering as O};
+            static OUTCOME: AtomicI32 = AtomicI32::new(0);
+            struct Hook;
+            impl Drop for Hook {
+                fn drop(&mut self) {
+                    let r = subj::guard(|| {
+                        let c = a5::lonlat_to_cell(LonLat::new(12.3, 45.6), 9)?;
+                        let _ = a5::cell_to_lonlat(c)?;
+                        let _ = a5::cell_to_boundary(c, None)?;
+                        let _ = a5::cell_to_children(c, None)?;
+                        Ok(())
+                    });
+                    OUTCOME.store(if r.is_ok() { 1 } else { 2 }, O::SeqCst);
+                }
+            }
+            thread_local! { static HOOK: Hook = const { Hook }; }
+            OUTCOME.store(0, O::SeqCst);
+            let j = std::thread::spawn(|| {
+                HOOK.with(|_| {});
+                let _ = subj::lookup(1.0, 2.0, 5);
+            })
+            .join();
+            match (j.is_ok(), OUTCOME.load(O::SeqCst)) {
+                (true, 1) => {}
+                (_, code) => bad("C14/panic", format!("ordinary calls made from a thread-local destructor during thread shutdown failed (thread joined cleanly: {}, hook outcome {}: 0 = never ran, 2 = panicked)", j.is_ok(), code)),
+            }
         }
         Probe::Res0 => {
             let r = guard_call!(a5::get_res0_cells());
